@@ -281,8 +281,14 @@ func rulesC20(c *Ctx) {
 				}
 			}
 			gd := g.GuardsAt(g.VertexOf(dataRet))
-			c.Check(hasAtom(gd, func(a Atom) bool { x, _, op, ok := cmpOn(a.E, func(e ast.Expr) bool { return cp.ObjOf(e) == start }); return ok && op == token.LSS && !a.Val && cp.ObjOf(x) == start }) &&
-				hasAtom(gd, func(a Atom) bool { x, _, op, ok := cmpOn(a.E, func(e ast.Expr) bool { return cp.ObjOf(e) == start }); return ok && op == token.GEQ && !a.Val && cp.ObjOf(x) == start }), "After:suffix-bounds-checked", cp, dataRet, "the suffix is taken only for 0 <= start < len(data)")
+			c.Check(hasAtom(gd, func(a Atom) bool {
+				x, _, op, ok := cmpOn(a.E, func(e ast.Expr) bool { return cp.ObjOf(e) == start })
+				return ok && op == token.LSS && !a.Val && cp.ObjOf(x) == start
+			}) &&
+				hasAtom(gd, func(a Atom) bool {
+					x, _, op, ok := cmpOn(a.E, func(e ast.Expr) bool { return cp.ObjOf(e) == start })
+					return ok && op == token.GEQ && !a.Val && cp.ObjOf(x) == start
+				}), "After:suffix-bounds-checked", cp, dataRet, "the suffix is taken only for 0 <= start < len(data)")
 		}
 		c.Check(okClone, "After:copy-under-lock", cp, dataRet, "the suffix data[start:] is copied with slices.Clone while the lock is held (eviction nils elements of the live backing array, so an aliasing view would later yield emptied payloads without a purge error)")
 		c.Check(cp.heldLocal(dataRet)[lkStore], "After:copy-lock-held", cp, dataRet, "the copy happens with the store mutex held")
